@@ -171,6 +171,13 @@ func runC18(c *Ctx) error {
 				bars, _ := c.randBars(n)
 				g1, _ := c.randSeries(n)
 				g2, _ := c.randSeries(n)
+				if r == 1 { // bars without trades: a zero volume is where a volume unit can hide
+					for i := range bars.Volume {
+						if c.Rng.IntN(3) == 0 {
+							bars.Volume[i] = 0
+						}
+					}
+				}
 				c.c18Indicator(typeKey, sp, inputsFor(t.InNames, bars, [][]float64{g1, g2}), c.c18Exp(), c.c18Exp())
 			}
 		}
